@@ -357,6 +357,11 @@ func tzContextLoc() (context.Context, *time.Location) {
 // values of the target type built from independently formatted text.
 func C17_CastValues() {
 	ctx, loc := tzContextLoc()
+	castValues(ctx, loc, "C17/cast-value")
+}
+
+// castValues: see C17_CastValues; tag prefixes the assertion labels.
+func castValues(ctx context.Context, loc *time.Location, tag string) {
 	opts := []exec.Option{exec.WithTZ()}
 	eq := func(method, a, e string) int {
 		return cmpOutcome(ctx, "$a."+method+"() == $b."+method+"()", a, e, opts)
@@ -374,9 +379,9 @@ func C17_CastValues() {
 			nd.Assume(false)
 		}
 		l := t.In(loc)
-		nd.Assert(eq("date", src, l.Format("2006-01-02")) == oT, "C17/cast-value/timestamptz.date/not-the-day-in-the-context-zone")
-		nd.Assert(eq("time", src, l.Format("15:04:05")) == oT, "C17/cast-value/timestamptz.time/not-the-time-of-day-in-the-context-zone")
-		nd.Assert(eq("timestamp", src, l.Format("2006-01-02T15:04:05")) == oT, "C17/cast-value/timestamptz.timestamp/not-the-local-date-time-in-the-context-zone")
+		nd.Assert(eq("date", src, l.Format("2006-01-02")) == oT, tag+"/timestamptz.date/not-the-day-in-the-context-zone")
+		nd.Assert(eq("time", src, l.Format("15:04:05")) == oT, tag+"/timestamptz.time/not-the-time-of-day-in-the-context-zone")
+		nd.Assert(eq("timestamp", src, l.Format("2006-01-02T15:04:05")) == oT, tag+"/timestamptz.timestamp/not-the-local-date-time-in-the-context-zone")
 	case 1:
 		// date -> timestamptz: midnight of that day in the context zone
 		src := dtString(tDate, digit())
@@ -384,8 +389,8 @@ func C17_CastValues() {
 		if err != nil {
 			nd.Assume(false)
 		}
-		nd.Assert(eq("timestamp_tz", src, d.Format("2006-01-02T15:04:05Z07:00")) == oT, "C17/cast-value/date.timestamp_tz/not-midnight-in-the-context-zone")
-		nd.Assert(eq("timestamp", src, d.Format("2006-01-02T15:04:05")) == oT, "C17/cast-value/date.timestamp/not-midnight")
+		nd.Assert(eq("timestamp_tz", src, d.Format("2006-01-02T15:04:05Z07:00")) == oT, tag+"/date.timestamp_tz/not-midnight-in-the-context-zone")
+		nd.Assert(eq("timestamp", src, d.Format("2006-01-02T15:04:05")) == oT, tag+"/date.timestamp/not-midnight")
 	case 2:
 		// timestamp -> timestamptz / date / time
 		src := dtString(tTimestamp, digit())
@@ -397,8 +402,8 @@ func C17_CastValues() {
 		if err != nil {
 			nd.Assume(false)
 		}
-		nd.Assert(eq("timestamp_tz", src, t.Format("2006-01-02T15:04:05Z07:00")) == oT, "C17/cast-value/timestamp.timestamp_tz/not-the-local-time-in-the-context-zone")
-		nd.Assert(eq("date", src, t.Format("2006-01-02")) == oT, "C17/cast-value/timestamp.date/not-the-date-part")
-		nd.Assert(eq("time", src, t.Format("15:04:05")) == oT, "C17/cast-value/timestamp.time/not-the-time-part")
+		nd.Assert(eq("timestamp_tz", src, t.Format("2006-01-02T15:04:05Z07:00")) == oT, tag+"/timestamp.timestamp_tz/not-the-local-time-in-the-context-zone")
+		nd.Assert(eq("date", src, t.Format("2006-01-02")) == oT, tag+"/timestamp.date/not-the-date-part")
+		nd.Assert(eq("time", src, t.Format("15:04:05")) == oT, tag+"/timestamp.time/not-the-time-part")
 	}
 }
